@@ -10,7 +10,7 @@ from sim.seams import Env
 PROPERTY = "C28"
 LEVEL = "exploration"
 SCENARIOS = {"one-channel": 2, "two-channels": 1}
-TIERS = {"quick": {"runs": 3000, "chunk": 15}, "thorough": {"runs": 120000, "chunk": 80}}
+TIERS = {"quick": {"runs": 3000, "chunk": 15}, "thorough": {"runs": 50000000, "wall_s": 600, "chunk": 80, "recheck": 16}}
 RULE = ("one run = one or two Serial devices on the channels of a simulated EL6002 in a real "
         "slow SyncGroup; the terminal side plays the EL6002 handshake (init, transmit/receive "
         "toggles) with accept delays of 0..4 cycles in each direction and announces drawn "
